@@ -475,7 +475,7 @@ impl Scenario for IncScn {
             }
             _ => {
                 // C13
-                positions(&mut v, if self.reduced { &[1, 1000] } else { &[1, 2, 3, 1000] }, if self.reduced { &[0, 1] } else { &[0, 1, 2] }, false);
+                positions(&mut v, if self.reduced { &[1, 1000] } else { &[1, 2, 3, 1000] }, if self.reduced { &[0, 1] } else { &[0, 1, 2] }, true);
                 v.push(IAct::Tick);
                 v.push(IAct::Snapshot { user: MALLORY.into() });
                 for u in us.iter() {
